@@ -241,7 +241,7 @@ def judge(ctx: core.Ctx, case: dict[str, Any]) -> None:
                     ctx.count("non_liquid_error_forwarded_to_C02")
                     return
                 ctx.evaluations += 1
-                ctx.violation(f"{kind}:raises-{o.err_class}", f"{src!r:.300} raised {o.err_class}: {str(o.exc)[:80]}")
+                ctx.violation(f"{kind}:raises-{o.err_class}", f"{src!r:.300} raised {o.err_class}: {drv.safe_str(o.exc)[:80]}")
                 return
             outs.append((vi, empty, src, o.value))
     segs = {}
